@@ -222,14 +222,14 @@ def bounded_part(pid: str, tier: str, seed: int, plan: dict, out: dict) -> int:
     code = 0
     parts = []
     findings, _ = load_known(pid)
-    known = {f["obligation"]: f for f in findings}
+    known = {(f["obligation"], f["witness"]): f for f in findings}
     for modname in plan.get("bounded", []):
         mod = importlib.import_module(modname)
         res = mod.run(tier=tier, seed=seed, pid=pid)
         for v in res.get("violations", []):
             name = v["name"]
-            if name in known and known[name]["witness"] == v.get("witness", known[name]["witness"]):
-                f = known[name]
+            if (name, v.get("witness", "")) in known:
+                f = known[(name, v.get("witness", ""))]
                 print(f"KNOWN-FINDING: property={pid} obligation={name} witness={f['witness']} — {f['text']}")
                 res.setdefault("known_findings_hit", []).append(name)
                 continue
